@@ -436,51 +436,58 @@ def prStrOp (a : List MVal) : Res :=
 
 /-- a builtin bound by `call.Call` applied to evaluated arguments: the argument count is checked first
     (an error), then `reflect.Value.Call` checks the typed parameters (`bind`), then the body runs -/
+def ap1 (f : MVal → Res) : List MVal → Res
+  | [x] => f x
+  | _ => .error .error              -- "wrong number of arguments"
+
+def ap2 (f : MVal → MVal → Res) : List MVal → Res
+  | [x, y] => f x y
+  | _ => .error .error
+
+/-- `nth(seq MalType, idx int)` behind the binder -/
+def nthB (x k : MVal) : Res :=
+  match k with
+  | .int i => nth x i
+  | _ => .error .bind
+
+/-- `take(elems int, arg MalType)` behind the binder -/
+def takeB (n x : MVal) : Res :=
+  match n with
+  | .int i => take i x
+  | _ => .error .bind
+
+/-- `rename_keys(data, alternative HashMap)` behind the binder -/
+def renameKeysB (d a : MVal) : Res :=
+  match d, a with
+  | .map d m, .map alt _ => renameKeys d alt m
+  | _, _ => .error .bind
+
 def applyPure (name : String) (a : List MVal) : Res :=
-  match name, a with
-  | "with-meta", [x, m] => withMeta x m
-  | "with-meta", _ => .error .error
-  | "meta", [x] => getMeta x
-  | "meta", _ => .error .error
-  | "vec", [x] => vec x
-  | "vec", _ => .error .error
-  | "seq", [x] => seq x
-  | "seq", _ => .error .error
-  | "first", [x] => first x
-  | "first", _ => .error .error
-  | "rest", [x] => rest x
-  | "rest", _ => .error .error
-  | "count", [x] => count x
-  | "count", _ => .error .error
-  | "keys", [x] => keys x
-  | "keys", _ => .error .error
-  | "vals", [x] => vals x
-  | "vals", _ => .error .error
-  | "nth", [x, .int i] => nth x i
-  | "nth", [_, _] => .error .bind
-  | "nth", _ => .error .error
-  | "take", [.int n, x] => take n x
-  | "take", [_, _] => .error .bind
-  | "take", _ => .error .error
-  | "cons", [x, s] => cons x s
-  | "cons", _ => .error .error
-  | "get", [h, k] => get h k
-  | "get", _ => .error .error
-  | "merge", [x, y] => merge x y
-  | "merge", _ => .error .error
-  | "=", [x, y] => equalOp x y
-  | "=", _ => .error .error
-  | "rename-keys", [.map d m, .map alt _] => renameKeys d alt m
-  | "rename-keys", [_, _] => .error .bind
-  | "rename-keys", _ => .error .error
-  | "list", xs => .ok (.list xs .nil)
-  | "vector", xs => .ok (.vec xs .nil)
-  | "concat", xs => concat xs
-  | "assoc", xs => assoc xs
-  | "dissoc", xs => dissoc xs
-  | "pr-str", xs => prStrOp xs
-  | "conj", xs => if xs.length < 2 then .error .error else conj xs
-  | _, _ => .error .error            -- an unbound symbol in function position
+  match name with
+  | "with-meta" => ap2 withMeta a
+  | "meta" => ap1 getMeta a
+  | "vec" => ap1 vec a
+  | "seq" => ap1 seq a
+  | "first" => ap1 first a
+  | "rest" => ap1 rest a
+  | "count" => ap1 count a
+  | "keys" => ap1 keys a
+  | "vals" => ap1 vals a
+  | "nth" => ap2 nthB a
+  | "take" => ap2 takeB a
+  | "cons" => ap2 cons a
+  | "get" => ap2 get a
+  | "merge" => ap2 merge a
+  | "=" => ap2 equalOp a
+  | "rename-keys" => ap2 renameKeysB a
+  | "list" => .ok (.list a .nil)
+  | "vector" => .ok (.vec a .nil)
+  | "concat" => concat a
+  | "assoc" => assoc a
+  | "dissoc" => dissoc a
+  | "pr-str" => prStrOp a
+  | "conj" => if a.length < 2 then .error .error else conj a
+  | _ => .error .error              -- an unbound symbol in function position
 
 mutual
 /-- `EVAL` of a value that is already data (what `(eval x)` does): symbols are unbound by construction of
